@@ -24,8 +24,15 @@ def main():
         r = run(["git", "-C", "/repo", "revert", "--no-commit", f["commit"]])
         try:
             if r.returncode != 0:
-                out[f["id"]] = dict(outcome="revert failed: " + r.stderr[-200:])
-                continue
+                # a later fix touched the same lines: undo this fix by the hand-made patch kept for it, if there is one
+                run(["git", "-C", "/repo", "revert", "--abort"])
+                run(["git", "-C", "/repo", "reset", "--hard", "-q", "HEAD"])
+                alt = Path(f"/verif/seeded/reverts/{f['id']}.diff")
+                a = run(["git", "-C", "/repo", "apply", "-p1", str(alt)]) if alt.is_file() else None
+                if a is None or a.returncode != 0:
+                    out[f["id"]] = dict(outcome="revert failed: " + r.stderr[-200:])
+                    print(f["id"], out[f["id"]], flush=True)
+                    continue
             props = [f["property"]] + f.get("also_checked_by", [])
             res = {}
             for prop in props:
